@@ -123,6 +123,9 @@ def one_repo(arg):
                      G.Entry(G.TREE, b"zz-links", G.Tree([G.Entry(G.LINK, b"l%d" % j, tiny) for j in range(30)] +
                                                          [G.Entry(G.GITLINK, b"s%d" % j, "%040x" % (j + 1)) for j in range(20)]))]
             m.refs["refs/heads/hugedir"] = G.Commit(G.Tree(ents), [], cts=1500001000, msg=b"huge directory\n")
+            # runs of consecutive 33-70 KB objects in the object readers' streams (commits, sibling trees, tags)
+            from ..campaign import add_big_runs
+            add_big_runs(rng, m, pool)
             if idx % 8 == 1:
                 from .C16 import big_tree_model
                 bm = big_tree_model(rng, versions=3)
